@@ -42,8 +42,13 @@ pub fn gen_net(rng: &mut Rng, in_dim: usize, rg: Regime, allow_head: bool) -> (V
                 7..=8 => L::HardTanh(i),
                 _ => L::HardSigmoid(i),
             };
-            layers.push(l);
+            layers.push(l.clone());
             neurons += 1;
+            // the same activation applied again to the same neuron (not every activation is idempotent)
+            if neurons < cap && rng.chance(0.12) {
+                layers.push(l);
+                neurons += 1;
+            }
         }
     }
     if allow_head && dim >= 2 && rng.chance(0.35) {
@@ -138,9 +143,64 @@ fn run_shipped(case: u64, rng: &mut Rng, ev: &mut Ev) {
     ev.nontrivial(h.fin());
 }
 
+/// A hidden layer of 65 .. 72 neurons of which only a handful (some with index >= 64) carry an activation:
+/// few regions, cheap to distil, but neuron indices beyond one machine word.
+fn run_wide(case: u64, rng: &mut Rng, ev: &mut Ev) {
+    let n = 1 + rng.below(2);
+    let w = 65 + rng.below(8);
+    let a1 = gen::aff(rng, w, n, Regime::Int);
+    let a2 = gen::aff(rng, 2, w, Regime::Int);
+    let mut idx: Vec<usize> = vec![rng.below(4), 64 + rng.below(w - 64)];
+    if rng.chance(0.7) {
+        idx.push(60 + rng.below(w - 60));
+    }
+    idx.sort();
+    idx.dedup();
+    let mut layers = vec![L::Linear(a1)];
+    for i in &idx {
+        layers.push(match rng.below(3) {
+            0 => L::Relu(*i),
+            1 => L::HardTanh(*i),
+            _ => L::Leaky(*i, 0.5),
+        });
+    }
+    layers.push(L::Linear(a2));
+    ev.evaluations += 1;
+    let desc = json!({"wide_hidden_layer": w, "in_dim": n, "layers": refnet::layers_json(&layers)});
+    let liblayers = refnet::to_lib(&layers);
+    let tree = match lib(case, "afftree_from_layers (wide hidden layer)", || afftree_from_layers(n, &liblayers, None)) {
+        Ok(t) => t,
+        Err(pm) => {
+            ev.violation(case, "c01:distill:panic", "", json!({"case": desc, "problem": pm}));
+            return;
+        }
+    };
+    let ts = snap(&tree);
+    let mut pts = gen::lattice(rng, n, 4, 0.5, 60);
+    pts.extend(gen::probes(rng, &[&ts], n, 40));
+    for x in &pts {
+        let xq = qv(x);
+        let exp = refnet::eval(&layers, &xq);
+        match ts.eval(&xq) {
+            TEv::Val(_, v) if v == exp => {}
+            o => {
+                ev.violation(case, "c01:value", "", json!({"case": desc, "problem": format!("x={:?}: tree {} but the network gives {:?}", x, o.brief(), exp.iter().map(|q| q.to_f64()).collect::<Vec<_>>())}));
+                return;
+            }
+        }
+    }
+    ev.inc("wide_hidden_layers_distilled");
+    let mut h = Hasher::new();
+    h.s(&desc.to_string());
+    ev.nontrivial(h.fin());
+}
+
 pub fn run_case(ctx: &Ctx, case: u64, ev: &mut Ev) {
     let mut rng = Rng::derive(ctx.seed, "C01", case);
     rng.big = crate::draw_big(ctx, &mut rng);
+    if case % 300 == 17 {
+        return run_wide(case, &mut rng, ev);
+    }
     if case % 2500 == 1249 {
         run_shipped(case, &mut rng, ev);
         return;
